@@ -615,7 +615,72 @@ func decideComparator(c *Ctx, rule string, fn *ssa.Function, fwd *types.Var) {
 			}
 			return AV{}, false
 		}
+		// the same questions asked inside a helper the two values were handed to (compareNillable(s1, s2, forward,
+		// valueOrder): there the operands are the helper's parameters, known by the names given above)
+		symSide := func(a AV) int {
+			if a.Kind != "sym" || a.Neg || a.Off != 0 {
+				return -1
+			}
+			switch a.Sym {
+			case "v1":
+				return 0
+			case "v2":
+				return 1
+			}
+			return -1
+		}
+		savedCmp, savedCall := decideSymCompare, decideSymCall
+		decideSymCompare = func(a, b AV, op token.Token) (bool, bool) {
+			i, j := symSide(a), symSide(b)
+			if i < 0 || j < 0 || i == j || isBool {
+				return false, false
+			}
+			o := tc.ord
+			if i == 1 {
+				o = -o
+			}
+			switch op {
+			case token.LSS:
+				return o < 0, true
+			case token.GTR:
+				return o > 0, true
+			case token.LEQ:
+				return o <= 0, true
+			case token.GEQ:
+				return o >= 0, true
+			case token.EQL:
+				return o == 0, true
+			case token.NEQ:
+				return o != 0, true
+			}
+			return false, false
+		}
+		decideSymCall = func(callee *types.Func, args []AV) (AV, bool) {
+			if callee.Pkg() == nil || callee.Pkg().Path() != "time" || len(args) != 2 {
+				return AV{}, false
+			}
+			i, j := symSide(args[0]), symSide(args[1])
+			if i < 0 || j < 0 || i == j {
+				return AV{}, false
+			}
+			o := tc.ord
+			if i == 1 {
+				o = -o
+			}
+			switch callee.Name() {
+			case "Before":
+				return avBool(o < 0), true
+			case "After":
+				return avBool(o > 0), true
+			case "Equal":
+				return avBool(o == 0), true
+			case "Compare":
+				return avInt(int64(o)), true
+			}
+			return AV{}, false
+		}
 		res, err := Decide(fn, oracle, nil)
+		decideSymCompare, decideSymCall = savedCmp, savedCall
 		desc := fmt.Sprintf("nil1=%v nil2=%v ord=%d forward=%v", tc.nil1, tc.nil2, tc.ord, tc.forward)
 		if err != "" {
 			c.Undecided(rule, name+": case "+desc, p.Pos(fn.Pos()), "not loop-free-decidable: "+err)
